@@ -429,4 +429,276 @@ theorem mapM_ok_of_forall {α β ε : Type} (f : α → Except ε β) (l : List 
     rw [List.mapM_cons, hb, hbs]
     rfl
 
+/-! ### decimal rescaling (unit prefixes) -/
+
+theorem decade_unique (a : ℚ) (e e' : ℤ) (h1 : (10 : ℚ) ^ e ≤ a) (h2 : a < (10 : ℚ) ^ (e + 1))
+    (h1' : (10 : ℚ) ^ e' ≤ a) (h2' : a < (10 : ℚ) ^ (e' + 1)) : e = e' := by
+  have mono : ∀ m n : ℤ, m ≤ n → (10 : ℚ) ^ m ≤ (10 : ℚ) ^ n := fun m n h => zpow_le_zpow_right₀ (by norm_num) h
+  rcases lt_trichotomy e e' with h | h | h
+  · exact absurd (lt_of_lt_of_le h2 (le_trans (mono _ _ (by omega)) h1')) (lt_irrefl _)
+  · exact h
+  · exact absurd (lt_of_lt_of_le h2' (le_trans (mono _ _ (by omega)) h1)) (lt_irrefl _)
+
+theorem ilog10_mul_zpow (a : ℚ) (ha : 0 < a) (k : ℤ) : ilog10 (a * (10 : ℚ) ^ k) = ilog10 a + k := by
+  have hk : (0 : ℚ) < (10 : ℚ) ^ k := zpow_pos (by norm_num) _
+  obtain ⟨l, u⟩ := ilog10_spec a ha
+  obtain ⟨l', u'⟩ := ilog10_spec (a * (10 : ℚ) ^ k) (mul_pos ha hk)
+  refine (decade_unique (a * (10 : ℚ) ^ k) _ _ ?_ ?_ l' u').symm
+  · rw [zpow_add₀ (by norm_num)]; exact mul_le_mul_of_nonneg_right l hk.le
+  · rw [show ilog10 a + k + 1 = (ilog10 a + 1) + k by ring, zpow_add₀ (by norm_num)]
+    exact mul_lt_mul_of_pos_right u hk
+
+theorem absR_mul_zpow (x : ℚ) (k : ℤ) : absR (x * (10 : ℚ) ^ k) = absR x * (10 : ℚ) ^ k := by
+  rw [absR_eq_abs, absR_eq_abs, abs_mul, abs_of_pos (zpow_pos (by norm_num : (0 : ℚ) < 10) k)]
+
+theorem scaled_arg_eq (x : ℚ) (q k : ℤ) : x * (10 : ℚ) ^ k * pow10 (-(q + k)) = x * pow10 (-q) := by
+  rw [pow10_eq_zpow, pow10_eq_zpow, neg_add, zpow_add₀ (by norm_num), mul_assoc, ← mul_assoc ((10 : ℚ) ^ k),
+    mul_comm ((10 : ℚ) ^ k), mul_assoc ((10 : ℚ) ^ (-q)), ← zpow_add₀ (by norm_num), add_neg_cancel, zpow_zero, mul_one]
+
+/-! ### explicit readers of the power-of-ten mark-up (specification side; literal templates, independent of the Gen tables) -/
+
+/-- `s` without the prefix `p`, if it starts with it -/
+def dropPrefix : List Char → List Char → Option (List Char)
+  | [], s => some s
+  | _ :: _, [] => none
+  | p :: ps, c :: cs => if p = c then dropPrefix ps cs else none
+
+/-- split before the first occurrence of `stop` -/
+def spanNe (stop : Char) : List Char → List Char × List Char
+  | [] => ([], [])
+  | c :: cs => if c = stop then ([], c :: cs) else ((c :: (spanNe stop cs).1), (spanNe stop cs).2)
+
+/-- read `<int text><close>` : the text up to the first `stop` (= first character of `close`) as a Python int, then `close` -/
+def readExp (close : List Char) (stop : Char) (t : List Char) : Option (Int × List Char) :=
+  match dropPrefix close (spanNe stop t).2 with
+  | some rest => (parseInt (spanNe stop t).1).map fun e => (e, rest)
+  | none => none
+
+/-- reader of `[sig sep] one-part exponent close rest`: `one` = bare power up to the exponent (`10^{`), `sep` = separator mark plus the
+    power (`\cdot 10^{`), `mark` = first character of `sep`.  Result: (significand text if present, exponent, text after the number) -/
+def readPow (one sep close : List Char) (stop mark : Char) (s : List Char) : Option (Option (List Char) × Int × List Char) :=
+  match dropPrefix one s with
+  | some t => (readExp close stop t).map fun er => (none, er.1, er.2)
+  | none =>
+    match dropPrefix sep (spanNe mark s).2 with
+    | some t => (readExp close stop t).map fun er => (some (spanNe mark s).1, er.1, er.2)
+    | none => none
+
+def readLatex : List Char → Option (Option (List Char) × Int × List Char) :=
+  readPow "10^{".toList "\\cdot 10^{".toList "}".toList '}' '\\'
+
+def readHtml : List Char → Option (Option (List Char) × Int × List Char) :=
+  readPow "10<sup>".toList "&sdot;10<sup>".toList "</sup>".toList '<' '&'
+
+theorem dropPrefix_append (p t : List Char) : dropPrefix p (p ++ t) = some t := by
+  induction p with
+  | nil => cases t <;> rfl
+  | cons a as ih => simp [dropPrefix, ih]
+
+theorem spanNe_append (stop : Char) (a r : List Char) (ha : ∀ c ∈ a, c ≠ stop) :
+    spanNe stop (a ++ stop :: r) = (a, stop :: r) := by
+  induction a with
+  | nil => simp [spanNe]
+  | cons x xs ih =>
+    have hx : x ≠ stop := ha x (by simp)
+    have := ih (fun c hc => ha c (List.mem_cons_of_mem _ hc))
+    simp [spanNe, hx, this]
+
+theorem readExp_intStr (stop : Char) (cl rest : List Char) (e : Int) (hs : ∀ c ∈ intStr e, c ≠ stop) :
+    readExp (stop :: cl) stop (intStr e ++ (stop :: cl) ++ rest) = some (e, rest) := by
+  unfold readExp
+  rw [List.append_assoc, List.cons_append, spanNe_append stop _ _ hs]
+  simp only
+  rw [show stop :: (cl ++ rest) = (stop :: cl) ++ rest by rfl, dropPrefix_append, parseInt_intStr]
+  rfl
+
+/-- a text whose third character is not `x` does not start with `p1 p2 x …` -/
+theorem dropPrefix_third (p1 p2 x : Char) (ps : List Char) (sig : List Char) (m1 m2 m3 : Char) (tail : List Char)
+    (hsig : ∀ c ∈ sig, c ≠ x) (h1 : m1 ≠ x) (h2 : m2 ≠ x) (h3 : m3 ≠ x) :
+    dropPrefix (p1 :: p2 :: x :: ps) (sig ++ m1 :: m2 :: m3 :: tail) = none := by
+  have key : ∀ a b c t, c ≠ x → dropPrefix (p1 :: p2 :: x :: ps) (a :: b :: c :: t) = none := by
+    intro a b c t hc
+    have : ¬ x = c := fun h => hc h.symm
+    simp [dropPrefix, this]
+  match sig, hsig with
+  | [], _ => exact key _ _ _ _ h3
+  | [a], _ => exact key _ _ _ _ h2
+  | [a, b], _ => exact key _ _ _ _ h1
+  | a :: b :: c :: t, hs => exact key _ _ _ _ (hs c (by simp))
+
+theorem intStr_ne (e : Int) (stop : Char) (h : ∀ c ∈ "0123456789-+".toList, c ≠ stop) : ∀ c ∈ intStr e, c ≠ stop :=
+  fun c hc => h c (intStr_chars e c hc)
+
+theorem readPow_one (one sep cl : List Char) (stop mark : Char) (rest : List Char) (e : Int) (hst : ∀ c ∈ intStr e, c ≠ stop) :
+    readPow one sep (stop :: cl) stop mark (one ++ intStr e ++ (stop :: cl) ++ rest) = some (none, e, rest) := by
+  unfold readPow
+  rw [show one ++ intStr e ++ (stop :: cl) ++ rest = one ++ (intStr e ++ (stop :: cl) ++ rest) by simp [List.append_assoc],
+    dropPrefix_append]
+  simp only [readExp_intStr stop cl rest e hst, Option.map_some]
+
+theorem readPow_sep (one sp cl : List Char) (stop mark : Char) (sig rest : List Char) (e : Int)
+    (hmark : ∀ c ∈ sig, c ≠ mark) (hst : ∀ c ∈ intStr e, c ≠ stop)
+    (hno : dropPrefix one (sig ++ (mark :: sp) ++ intStr e ++ (stop :: cl) ++ rest) = none) :
+    readPow one (mark :: sp) (stop :: cl) stop mark (sig ++ (mark :: sp) ++ intStr e ++ (stop :: cl) ++ rest)
+      = some (some sig, e, rest) := by
+  unfold readPow
+  rw [hno]
+  simp only
+  have hshape : sig ++ (mark :: sp) ++ intStr e ++ (stop :: cl) ++ rest
+      = sig ++ mark :: (sp ++ (intStr e ++ (stop :: cl) ++ rest)) := by simp [List.append_assoc]
+  rw [hshape, spanNe_append mark sig _ hmark]
+  simp only
+  rw [show mark :: (sp ++ (intStr e ++ (stop :: cl) ++ rest)) = (mark :: sp) ++ (intStr e ++ (stop :: cl) ++ rest) by rfl,
+    dropPrefix_append]
+  simp only [readExp_intStr stop cl rest e hst, Option.map_some]
+
+/-- value of an optional significand text: an omitted significand counts as 1 -/
+def sigValue : Option (List Char) → Option ℚ
+  | none => some 1
+  | some s => plainValue s
+
+/-! ### string-level reader of the unicode form -/
+
+open ChemModel.Gen.PrintingNumbers
+
+/-- superscript of a character of an integer text, and its inverse (independent table) -/
+def unSup : Char → Char
+  | '⁰' => '0' | '¹' => '1' | '²' => '2' | '³' => '3' | '⁴' => '4' | '⁵' => '5' | '⁶' => '6' | '⁷' => '7'
+  | '⁸' => '8' | '⁹' => '9' | '⁻' => '-' | '⁺' => '+' | c => c
+
+/-- superscript characters of an exponent -/
+def isSup (c : Char) : Bool := "⁰¹²³⁴⁵⁶⁷⁸⁹⁻⁺".toList.contains c
+
+/-- `10` directly followed by a superscript: the bare power -/
+def omittedForm (s : List Char) : Option (List Char) :=
+  match dropPrefix ['1', '0'] s with
+  | some (c :: t) => if isSup c then some (c :: t) else none
+  | _ => none
+
+/-- the run of superscripts read as a Python int, and what follows it -/
+def readSupExp (t : List Char) : Option (Int × List Char) :=
+  (parseInt ((t.takeWhile isSup).map unSup)).map fun e => (e, t.dropWhile isSup)
+
+/-- string-level reader of the unicode form `[sig·]10ˢᵘᵖ rest` -/
+def readUnicode (s : List Char) : Option (Option (List Char) × Int × List Char) :=
+  match omittedForm s with
+  | some t => (readSupExp t).map fun er => (none, er.1, er.2)
+  | none =>
+    match dropPrefix ['·', '1', '0'] (spanNe '·' s).2 with
+    | some t => (readSupExp t).map fun er => (some (spanNe '·' s).1, er.1, er.2)
+    | none => none
+
+theorem sup_table_isSup : ∀ c ∈ "0123456789-+".toList, ∃ u, unicodeSup.lookup c = some u ∧ unSup u = c ∧ isSup u = true := by
+  decide
+
+theorem supMap_spec (s : List Char) (h : ∀ c ∈ s, c ∈ "0123456789-+".toList) :
+    ∃ sup, supMap s = .ok sup ∧ sup.map unSup = s ∧ ∀ u ∈ sup, isSup u = true := by
+  induction s with
+  | nil => exact ⟨[], rfl, rfl, by simp⟩
+  | cons c cs ih =>
+    obtain ⟨sup, h1, h2, h3⟩ := ih (fun c hc => h c (List.mem_cons_of_mem _ hc))
+    obtain ⟨u, hu1, hu2, hu3⟩ := sup_table_isSup c (h c (by simp))
+    refine ⟨u :: sup, ?_, by simp [hu2, h2], ?_⟩
+    · show (supMap cs >>= fun rest => match unicodeSup.lookup c with
+        | some u => pure (u :: rest) | none => throw "TypeError") = _
+      rw [h1, hu1]
+      rfl
+    · intro v hv
+      simp only [List.mem_cons] at hv
+      rcases hv with h | h
+      · rw [h]; exact hu3
+      · exact h3 v h
+
+theorem takeWhile_sup (sup rest : List Char) (hs : ∀ u ∈ sup, isSup u = true) (hr : ∀ c, rest.head? = some c → isSup c = false) :
+    (sup ++ rest).takeWhile isSup = sup ∧ (sup ++ rest).dropWhile isSup = rest := by
+  induction sup with
+  | nil =>
+    cases rest with
+    | nil => simp
+    | cons c t => have := hr c rfl; simp [this]
+  | cons u us ih =>
+    have hu := hs u (by simp)
+    have := ih (fun v hv => hs v (List.mem_cons_of_mem _ hv))
+    simp [hu, this.1, this.2]
+
+theorem readSupExp_ok (sup rest : List Char) (e : Int) (hs : ∀ u ∈ sup, isSup u = true) (hmap : sup.map unSup = intStr e)
+    (hr : ∀ c, rest.head? = some c → isSup c = false) : readSupExp (sup ++ rest) = some (e, rest) := by
+  unfold readSupExp
+  rw [(takeWhile_sup sup rest hs hr).1, (takeWhile_sup sup rest hs hr).2, hmap, parseInt_intStr]
+  rfl
+
+theorem intStr_ne_nil (e : Int) : intStr e ≠ [] := by
+  unfold intStr
+  split
+  · simp
+  · exact natStr_ne_nil _
+
+theorem omittedForm_bare (sup rest : List Char) (hne : sup ≠ []) (hs : ∀ u ∈ sup, isSup u = true) :
+    omittedForm (['1', '0'] ++ sup ++ rest) = some (sup ++ rest) := by
+  cases sup with
+  | nil => exact absurd rfl hne
+  | cons u us =>
+    have hu := hs u (by simp)
+    simp [omittedForm, dropPrefix, hu]
+
+theorem omittedForm_sig (sig tail : List Char) (hs : ∀ c ∈ sig, isSup c = false) :
+    omittedForm (sig ++ '·' :: tail) = none := by
+  have hdot : isSup '·' = false := by decide
+  match sig, hs with
+  | [], _ => simp [omittedForm, dropPrefix]
+  | [a], _ =>
+    by_cases h1 : '1' = a <;> simp [omittedForm, dropPrefix, h1]
+  | [a, b], _ =>
+    by_cases h1 : '1' = a
+    · by_cases h2 : '0' = b
+      · subst h1; subst h2; simp [omittedForm, dropPrefix, hdot]
+      · simp [omittedForm, dropPrefix, h2]
+    · simp [omittedForm, dropPrefix, h1]
+  | a :: b :: c :: t, hs =>
+    have hc := hs c (by simp)
+    by_cases h1 : '1' = a
+    · by_cases h2 : '0' = b
+      · subst h1; subst h2; simp [omittedForm, dropPrefix, hc]
+      · simp [omittedForm, dropPrefix, h2]
+    · simp [omittedForm, dropPrefix, h1]
+
+theorem sigText_sup_free (p : ℕ) (r : Dec) : ∀ c ∈ sigText p r, c ≠ '·' ∧ isSup c = false := by
+  intro c hc
+  have key : ∀ c, numChar c = true → c ≠ '·' ∧ isSup c = false := by
+    intro c h
+    have h' : isDigit c = true ∨ c = '.' := by
+      unfold numChar at h
+      rcases Bool.or_eq_true_iff.mp h with h | h
+      · exact Or.inl h
+      · exact Or.inr (by simpa using h)
+    rcases h' with h' | h'
+    · unfold isDigit at h'
+      have h1a : '0' ≤ c := by simpa using (Bool.and_eq_true_iff.mp h').1
+      have h2a : c ≤ '9' := by simpa using (Bool.and_eq_true_iff.mp h').2
+      have h1 : 48 ≤ c.toNat := h1a
+      have h2 : c.toNat ≤ 57 := h2a
+      have : c = Char.ofNat c.toNat := (Char.ofNat_toNat c).symm
+      rw [this]
+      generalize c.toNat = k at *
+      have : k = 48 ∨ k = 49 ∨ k = 50 ∨ k = 51 ∨ k = 52 ∨ k = 53 ∨ k = 54 ∨ k = 55 ∨ k = 56 ∨ k = 57 := by omega
+      rcases this with h | h | h | h | h | h | h | h | h | h <;> subst h <;> decide
+    · subst h'; decide
+  unfold sigText at hc
+  split at hc
+  · simp only [List.mem_cons] at hc
+    rcases hc with h | h
+    · subst h; decide
+    · exact key c (numChar_layoutMant _ _ c h)
+  · exact key c (numChar_layoutMant _ _ c hc)
+
+theorem unitSuffix_unicode_head (unit : Option (List Char)) :
+    ∀ c, (unitSuffix .unicode unit).head? = some c → isSup c = false := by
+  intro c hc
+  cases unit with
+  | none => simp [unitSuffix] at hc
+  | some u =>
+    have : defaultSpace = [' '] := by decide
+    simp only [unitSuffix, this, List.cons_append, List.nil_append, List.head?_cons, Option.some.injEq] at hc
+    subst hc; decide
+
 end ChemModel.NumFmt
